@@ -42,7 +42,7 @@ pub fn hist(a: i64) -> i64 {
 }
 pub fn spec_is_leap(y: i32) -> bool {
     let a = astro(y);
-    a % 4 == 0 && (a % 100 != 0 || a % 400 == 0)
+    floor_mod(a, 4) == 0 && (floor_mod(a, 100) != 0 || floor_mod(a, 400) == 0)
 }
 pub fn spec_mdays(y: i32, m: u32) -> u32 {
     match m {
@@ -78,4 +78,99 @@ pub fn spec_rd(y: i32, m: u32, d: u32) -> i64 {
 /// contract of days_to_date (C01 obligation 1). Exact: spec_rd is injective on valid triples.
 pub fn contract_days_to_date(d: i32, y: i32, m: u32, dd: u32) -> bool {
     spec_valid(y, m, dd) && spec_rd(y, m, dd) == d as i64
+}
+
+// ---------------------------------------------------------------- value construction and reading
+use crate::{Date, DateTime, Offset, Time};
+
+pub fn dt(d: i32, n: u64, off: i32) -> DateTime {
+    DateTime { days: d, nanoseconds: n, offset: Offset::Fixed(off) }
+}
+pub fn tm(n: u64, off: i32) -> Time {
+    Time { nanoseconds: n, offset: Offset::Fixed(off) }
+}
+/// offset seconds of a value built by `dt`/`tm` (never resolves `Local`)
+pub fn off_secs(o: Offset) -> i32 {
+    match o {
+        Offset::Fixed(s) => s,
+        Offset::Local => i32::MIN,
+    }
+}
+/// nanoseconds since 0001-01-01T00:00:00Z
+pub fn inst(d: i32, n: u64) -> i128 {
+    d as i128 * NPD + n as i128
+}
+pub fn inst_dt(x: &DateTime) -> i128 {
+    inst(x.days, x.nanoseconds)
+}
+/// representable instants: day number fits i32 and time of day < 24 h
+pub fn in_range(t: i128) -> bool {
+    t >= i32::MIN as i128 * NPD && t < (i32::MAX as i128 + 1) * NPD
+}
+pub fn valid_off(off: i32) -> bool {
+    off > -86_400 && off < 86_400
+}
+pub fn local(d: i32, n: u64, off: i32) -> i128 {
+    inst(d, n) + off as i128 * NPS
+}
+pub fn local_day(d: i32, n: u64, off: i32) -> i64 {
+    fdiv128(local(d, n, off), NPD) as i64
+}
+pub fn local_nod(d: i32, n: u64, off: i32) -> i128 {
+    fmod128(local(d, n, off), NPD)
+}
+/// truncating division of i128 (Rust `/`), spelled out for readability of the properties
+pub fn trunc_div(a: i128, c: i128) -> i128 {
+    a / c
+}
+/// weekday with 0 = Sunday; day 0 (0001-01-01) is a Monday
+pub fn spec_weekday(day: i64) -> i64 {
+    (floor_mod(day, 7) + 1) % 7
+}
+/// ISO weekday 1 = Monday ..= 7 = Sunday
+pub fn spec_iso_wd(day: i64) -> i64 {
+    floor_mod(day, 7) + 1
+}
+pub fn prev_year(y: i32) -> i32 {
+    if y == 1 { -1 } else { y - 1 }
+}
+/// days before month m in a common year
+pub fn spec_cum(m: u32) -> i64 {
+    match m {
+        1 => 0, 2 => 31, 3 => 59, 4 => 90, 5 => 120, 6 => 151,
+        7 => 181, 8 => 212, 9 => 243, 10 => 273, 11 => 304, _ => 334,
+    }
+}
+/// day of year (1-based) of a valid date, closed form
+pub fn spec_doy(y: i32, m: u32, d: u32) -> i64 {
+    spec_cum(m) + (if m > 2 && spec_is_leap(y) { 1 } else { 0 }) + d as i64
+}
+/// ISO weekday (1 = Monday ..= 7 = Sunday) straight from the date triple: spec_rd with 365*p replaced by p
+/// (364*p is a multiple of 7). oracle_wd_ymd_holds ties it to floor_mod(spec_rd, 7).
+pub fn spec_iso_wd_ymd(y: i32, m: u32, d: u32) -> i64 {
+    let p = astro(y) - 1;
+    let leaps = floor_div(p, 4) - floor_div(p, 100) + floor_div(p, 400);
+    floor_mod(p + leaps + spec_doy(y, m, d) - 1, 7) + 1
+}
+/// number of ISO weeks of year y: 53 iff 1 January is a Thursday, or a Wednesday in a leap year
+pub fn spec_iso_weeks_in_year(y: i32) -> i64 {
+    let w = spec_iso_wd_ymd(y, 1, 1);
+    if w == 4 || (w == 3 && spec_is_leap(y)) { 53 } else { 52 }
+}
+/// ISO-8601 week number of a valid date: week = floor((doy - weekday + 10) / 7), 0 -> last week of the previous
+/// year, beyond the year's week count -> week 1
+pub fn spec_iso_week(y: i32, m: u32, d: u32) -> i64 {
+    let w = floor_div(spec_doy(y, m, d) - spec_iso_wd_ymd(y, m, d) + 10, 7);
+    if w < 1 { spec_iso_weeks_in_year(prev_year(y)) }
+    else if w > spec_iso_weeks_in_year(y) { 1 }
+    else { w }
+}
+
+/// Declares `days_to_date(d) == (y, m, dd)` for the abstraction "days_to_date/bound": the executor records the
+/// binding and answers the library's calls of days_to_date on that argument with the triple (no calendar code
+/// is expanded). Natively it is the assumption it states. Quantifying over all consistent (d, y, m, dd) covers
+/// every d because days_to_date is total (C01 obligation 1 characterises the consistent tuples).
+#[inline(never)]
+pub fn bind_days_to_date(d: i32, y: i32, m: u32, dd: u32) {
+    assume(crate::util::date::convert::days_to_date(d) == (y, m, dd));
 }
